@@ -214,7 +214,8 @@ def reuse_info_of_file(
             text = decoded_text_from_binary(fp, size=read_limit)
             # The limit falls somewhere inside of a line, or a character.
             # Half a tag is not read at all rather than read wrong.
-            if read_limit is not None and fp.read(1):
+            # (Unless what follows is the line break itself.)
+            if read_limit is not None and fp.read(1) not in (b"", b"\n", b"\r"):
                 text = text[: text.rfind("\n") + 1]
             file_result = extract_reuse_info(text)
             if file_result.contains_copyright_or_licensing():
